@@ -35,6 +35,15 @@ claimed = {
         "NOT decided: that crypto/ecdsa implements ECDSA on the leftmost 256 bits (assumed contract), the (r, n-s) twin statement (a consequence of the assumed equation), secp256k1 going through Go's generic-curve path.",
    note=TRUSTED + " crypto/ecdsa, math/big, crypto/elliptic, btcec are assumed contracts; the curve contexts' values are assumed global facts; the representation invariant of key objects is a precondition (constructors: see C12/C05).",
    design="§0.2, §5 C11"),
+ "C12": dict(
+   text="Key generation and key construction, verified (go/ssa, C glue from the clang AST) over assumed contracts of crypto/hkdf, crypto/ecdh, btcec, crypto/elliptic and math/big: "
+        "GeneratePrivateKey rejects unsupported algorithms and seeds shorter than 32 or longer than 256 bytes with an invalid-input error (all three algorithms) and never fails otherwise; "
+        "ECDSA: the private scalar is d = (OS2IP(HKDF-SHA256(seed, salt = empty, info = empty, L = 48)) mod (n-1)) + 1 - the WHOLE seed goes into HKDF - so d is in [1, n-1], and the Go key holds d and the public point (pubX, pubY)(curve, d) computed by crypto/ecdh (P-256, from the 32-byte big-endian scalar: FillBytes) or btcec's ScalarBaseMult (secp256k1); the context (curve) of the key is the algorithm's own; "
+        "DecodePrivateKey(ECDSA) accepts exactly the 32-byte big-endian scalars in [1, n-1] and builds the same kind of key; PublicKey() of an ECDSA private key returns the cached key object wrapping that public point (same object on every call); "
+        "BLS: seed bounds as above, the generated scalar is OS2IP(okm) mod r of an HKDF output, never zero (the loop repeats with a re-hashed salt until it is non-zero) and reduced; the public key of every BLS private key is scalar * g2 with a truthful identity flag, cached (computePublicKey / PublicKey: also part of C01). "
+        "NOT decided: the exact salt / info strings and the salt re-hashing of the IETF BLS KeyGen (the hash values of crypto/sha256 are not specified: only sizes and frames), which hash constructor is passed to HKDF (function values are not compared), determinism is implied by the functional contracts of the assumed libraries.",
+   note=TRUSTED + " crypto/hkdf, crypto/sha256, crypto/ecdh, btcec, crypto/elliptic, math/big are assumed contracts (contracts/trusted/ecdsa.spec, stdlib.spec); the curve contexts' values are assumed global facts.",
+   design="§0.2, §5 C12"),
  "C04": dict(
    text="Every aggregation function is proved, for all list lengths and contents, to return THE sum of its inputs in the group it works in, stated with spec-level left folds (e1sum / e2sum / frsum: identity for n <= 0, add(sum(n-1), x[n-1]) otherwise) over the uninterpreted BLST additions: "
         "C (from the clang AST): Fr_sum_vector, E1_sum_vector, E2_sum_vector (loop invariant `partial sum`), E2_sum_vector_to_affine (= affine form of the sum, infinity preserved), E2_subtract_vector (= x + (-(sum y))), "
@@ -81,7 +90,7 @@ claimed = {
  "C05": dict(
    text="BLS serialization: Fr_read_bytes/Fr_star_read_bytes/Fr_write_bytes, Fp_read_bytes/Fp_write_bytes, Fp2_read/write_bytes, E1/E2_read_bytes, E1/E2_write_bytes (C, verified from the clang AST against the ZCash compressed format) and their Go callers readScalarFrStar, readPointE1/E2, writeScalar, writePointE1/E2, decodePrivateKey, decodePublicKey, decodePublicKeyCompressed, prKey/pubKey Encode: "
         "accepted private keys are exactly the 32-byte big-endian scalars in [1, r-1] (else invalidInputsError) and the key holds that scalar; accepted public keys are exactly 96-byte canonical encodings of G2 points (membership check included) and the key holds the decoded point with its identity flag; Encode writes the canonical encoding of the stored value, so decode-then-encode is the identity on accepted strings (canonical-encoding injectivity). "
-        "The ZCash coordinate ORDER of G2 (c1 first) is a postcondition that FAILS on the real code: reported as known finding F2 (c0||c1 is written). ECDSA decoders/encoders (Go standard library and btcec) are NOT covered by this check.",
+        "The ZCash coordinate ORDER of G2 (c1 first) is a postcondition that FAILS on the real code: reported as known finding F2 (c0||c1 is written). ECDSA decoders (rawDecodePrivateKey, rawDecodePublicKey, decodePublicKeyCompressed and the DecodeXxx entry points) ARE covered over assumed contracts of crypto/ecdh, btcec, elliptic (accepted sets exact: 32-byte scalars in [1,n-1]; 64 bytes with reduced on-curve coordinates; 33-byte X9.62 compressed points); ECDSA ENCODERS are NOT covered by this check.",
    note=TRUSTED + " Big-endian limb conversion (limbs_from_be_bytes / be_bytes_from_limbs), Montgomery conversion and the BLST field/curve primitives are assumed contracts (uninterpreted functions). ECDSA half of the property not decided: it would only restate assumed contracts of crypto/elliptic and btcec.",
    design="§5 C05"),
  "C16": dict(
